@@ -1,5 +1,7 @@
 SPECIFICATION Spec
 CONSTANTS
   Deviations = {}
-INVARIANTS RunIffSatisfied UnsecuredNoCallback OnlyDesignedSchemes DenyReturnsCallbackError CredentialFromDesignedPlace GrantIsWitnessed Inheritance
+  Spaces = {"flow", "cred"}
+  MaxOdd = 2
+INVARIANTS RunIffSatisfied UnsecuredNoCallback OnlyDesignedSchemes DenyReturnsCallbackError CredentialFromDesignedPlace NoCredentialNeverRuns RefusedOnlyWithoutCredential ClientWireForm GrantIsWitnessed Inheritance
 CHECK_DEADLOCK FALSE
